@@ -6,7 +6,6 @@ import (
 	"context"
 	"errors"
 	"fmt"
-	"maps"
 	"math"
 	"os"
 	"reflect"
@@ -1799,23 +1798,18 @@ func (m *Machine) ParseStates(states S) S {
 
 	// check if all states are defined in the schema
 	seen := make(map[string]struct{})
-	dups := false
+	ret := make(S, 0, len(states))
 	for i := range states {
 		if _, ok := m.schemaSafe()[states[i]]; !ok {
 			continue
 		}
 		if _, ok := seen[states[i]]; !ok {
 			seen[states[i]] = struct{}{}
-		} else {
-			// mark as duplicated
-			dups = true
+			ret = append(ret, states[i])
 		}
 	}
 
-	if dups {
-		return slicesUniq(states)
-	}
-	return slices.Collect(maps.Keys(seen))
+	return ret
 }
 
 // VerifyStates verifies an array of state names and returns an error in case
